@@ -38,3 +38,10 @@ Definition os_read (evs : list ev) (count : Z) : option (Z * list Z * list ev) :
 (* the bytes read(2) delivered are stored at buf[off ..]; a store outside the buffer has no result *)
 Definition store_bytes (buf : list Z) (off : Z) (bs : list Z) : option (list Z) :=
   if (0 <=? off) && (off + Z.of_nat (length bs) <=? Z.of_nat (length buf)) then Some (firstn (Z.to_nat off) buf ++ bs ++ skipn (Z.to_nat off + length bs) buf) else None.
+
+(* nfl::randombytes(buf, n) as an oracle (its own behaviour is C19): the first n bytes of buf become the next n bytes of the key tape *)
+Definition rb_fill (buf : list Z) (n : Z) (tape : list Z) : option (list Z * list Z) :=
+  if (0 <=? n) && (n <=? Z.of_nat (length buf)) && (n <=? Z.of_nat (length tape)) then Some (firstn (Z.to_nat n) tape ++ skipn (Z.to_nat n) buf, skipn (Z.to_nat n) tape) else None.
+(* the keystream routine (the assembly nfl_crypto_stream_salsa20_amd64_xmm6) as an oracle: `stream key nonce len` is written at r[off .. off+len) *)
+Definition stream_write (stream : list Z -> list Z -> nat -> list Z) (buf : list Z) (off len : Z) (nonce key : list Z) : option (list Z) :=
+  if (0 <=? off) && (0 <=? len) && (off + len <=? Z.of_nat (length buf)) then Some (firstn (Z.to_nat off) buf ++ stream key nonce (Z.to_nat len) ++ skipn (Z.to_nat off + Z.to_nat len) buf) else None.
